@@ -293,7 +293,7 @@ def junk_denom(rng, key):
 def gen_scenario(rng):
     kind = rng.choice(['nn', 'nt', 'tn', 'tt'])
     dec = rng.choice([(6, 6), (18, 18), (6, 18), (18, 6)])
-    n1_denom = rng.choice(['uaura', 'uaura', 'uaura', 'ibc/27394FB092D2ECCD', 'factory/halo1xyz/sub.token-1'])
+    n1_denom = rng.choice(['uaura', 'uaura', 'uaura', 'ibc/27394FB092D2ECCD', 'factory/halo1xyz/sub.token-1', 'ibc/27394FB092D2ECCD56123C74F36E4C1F926001CEADA9CA97EA622B25F41E5EB2'])
     mk = {'n0': {'native': 'uusd'}, 'n1': {'native': n1_denom}, 't0': {'token': 'A'}, 't1': {'token': 'B'}}
     assets = [mk[('n' if kind[0] == 'n' else 't') + '0'], mk[('n' if kind[1] == 'n' else 't') + '1']]
     cr = rng.choice(['3000000000000000', '0', '300000000000000000', '3333333333333333', '30000000000000000'])
@@ -334,6 +334,12 @@ def gen_scenario(rng):
     n = rng.randrange(3, 8)
     for _ in range(n):
         c = rng.random()
+        natd = [a_['native'] for a_ in assets if 'native' in a_]
+        if natd and rng.random() < 0.12:
+            # the factory owner re-registers the (unchanged) decimals of one of the pair's native assets: the factory tells the pair,
+            # whose stored assets / balances must be what they were
+            dn = rng.choice(natd)
+            steps.append(dict(op='add_native_decimals', sender='admin', denom=dn, decimals=case['native_decimals'][dn]))
         if c < 0.40:
             oi = rng.randrange(2)
             amt = max(1, int(est[oi] * rng.choice([1e-6, 1e-3, 0.01, 0.3, 1.0, 3.0])) + rng.randrange(0, 3))
